@@ -21,7 +21,8 @@ CONSTANTS
     LeaseIds,     \* lease identifiers, e.g. {1,2}
     MaxNow,       \* clock bound (whole seconds)
     MaxHist,      \* bound on recorded history (generation configs)
-    FullHist      \* TRUE: record the expected observation at every step
+    FullHist,     \* TRUE: record the expected observation at every step
+    PathView      \* TRUE: track `rb` (see below) so that histories through reorgs are kept apart
 
 VARIABLES
     g,        \* chosen graph id (static)
@@ -31,10 +32,13 @@ VARIABLES
     cred,     \* set of credited outpoints <<t,i>>
     lease,    \* [LeaseOps -> <<id, expiry>>] ; <<0,0>> = none
     now,      \* clock
+    rb,       \* path abstraction: transactions that have been disconnected from a block at least once
+              \* (no query depends on it; it only makes the exhaustive exploration keep apart states that
+              \* were reached through a reorg, so that such histories are emitted and replayed, C02/C13)
     hist      \* recorded operations (and expectations when FullHist)
 
 facts == <<g, tip, mined, unm, cred, lease, now>>
-vars  == <<g, tip, mined, unm, cred, lease, now, hist>>
+vars  == <<g, tip, mined, unm, cred, lease, now, rb, hist>>
 
 ----------------------------------------------------------------------------
 (* The transaction graph family.  An outpoint is <<t, i>>; t = 0 denotes an *)
@@ -237,6 +241,7 @@ Init ==
     /\ cred = {}
     /\ lease = [op \in Graph(g).lops |-> NoLease]
     /\ now = 0
+    /\ rb = {}
     /\ hist = <<>>
 
 (* An unconfirmed transaction is seen (relevant-tx notification or own       *)
@@ -251,14 +256,14 @@ SeeUnmined(t) ==
        THEN UNCHANGED <<unm, cred>>
        ELSE /\ unm' = unm \cup {t}
             /\ cred' = cred \cup Mine(t)
-    /\ UNCHANGED <<g, tip, mined, lease, now>>
+    /\ UNCHANGED <<g, tip, mined, lease, now, rb>>
     /\ Step("SeeUnmined", [t |-> t], "ok")
 
 (* A block is connected. *)
 NewBlock ==
     /\ tip < MaxTip
     /\ tip' = tip + 1
-    /\ UNCHANGED <<g, mined, unm, cred, lease, now>>
+    /\ UNCHANGED <<g, mined, unm, cred, lease, now, rb>>
     /\ Step("NewBlock", [h |-> tip + 1], "ok")
 
 (* Transaction t is reported confirmed in the tip block: InsertTx(block) +   *)
@@ -278,7 +283,7 @@ Confirm(t) ==
             /\ unm'   = unm \ ({t} \cup R)
             /\ cred'  = (cred \cup Mine(t)) \ UNION {Outs(u) : u \in R}
             /\ lease' = [op \in LeaseOps |-> IF op \in Ins(t) THEN NoLease ELSE lease[op]]
-    /\ UNCHANGED <<g, tip, now>>
+    /\ UNCHANGED <<g, tip, now, rb>>
     /\ Step("Confirm", [t |-> t, h |-> tip], "ok")
 
 (* Blocks at height h and above are disconnected (h = tip+1: nothing to do). *)
@@ -290,6 +295,7 @@ Rollback(h) ==
        IN  /\ mined' = [t \in Tx |-> IF t \in D THEN 0 ELSE mined[t]]
            /\ unm'   = (unm \cup D) \ R
            /\ cred'  = cred \ UNION {Outs(u) : u \in R}
+           /\ rb'    = IF PathView THEN (rb \cup D) \ R ELSE rb
     /\ tip' = h - 1
     /\ UNCHANGED <<g, lease, now>>
     /\ Step("Rollback", [h |-> h], "ok")
@@ -300,6 +306,7 @@ Abandon(t) ==
     /\ LET R == Closure({t}, unm) IN
            /\ unm'  = unm \ R
            /\ cred' = cred \ UNION {Outs(u) : u \in R}
+    /\ rb' = rb \ Closure({t}, unm)
     /\ UNCHANGED <<g, tip, mined, lease, now>>
     /\ Step("Abandon", [t |-> t], "ok")
 
@@ -312,7 +319,7 @@ LeaseDefined(op) == op \in cred /\ op[1] \in Known => ~ConfSpent(op)
 Lease(op, id, d) ==
     /\ LeaseDefined(op)
     /\ now + d <= MaxNow + 1
-    /\ UNCHANGED <<g, tip, mined, unm, cred, now>>
+    /\ UNCHANGED <<g, tip, mined, unm, cred, now, rb>>
     /\ LET a == [t |-> op[1], i |-> op[2], id |-> id, d |-> d] IN
        IF ~LeaseKnown(op)
        THEN UNCHANGED lease /\ Step("Lease", a, "unknown")
@@ -323,7 +330,7 @@ Lease(op, id, d) ==
 
 Release(op, id) ==
     /\ LeaseKnown(op)
-    /\ UNCHANGED <<g, tip, mined, unm, cred, now>>
+    /\ UNCHANGED <<g, tip, mined, unm, cred, now, rb>>
     /\ LET a == [t |-> op[1], i |-> op[2], id |-> id] IN
        IF Active(op) /\ lease[op][1] # id
        THEN UNCHANGED lease /\ Step("Release", a, "notallowed")
@@ -337,15 +344,15 @@ Tick ==
     /\ now' = now + 1
     /\ lease' = [op \in LeaseOps |-> IF lease[op] # NoLease /\ lease[op][2] <= now + 1
                                      THEN NoLease ELSE lease[op]]
-    /\ UNCHANGED <<g, tip, mined, unm, cred>>
+    /\ UNCHANGED <<g, tip, mined, unm, cred, rb>>
     /\ Step("Tick", [d |-> 1], "ok")
 
 Sweep ==    \* DeleteExpiredLockedOutputs: no observable effect
-    /\ UNCHANGED facts
+    /\ UNCHANGED <<facts, rb>>
     /\ Step("Sweep", <<>>, "ok")
 
 Restart ==  \* close and reopen the store: no observable effect
-    /\ UNCHANGED facts
+    /\ UNCHANGED <<facts, rb>>
     /\ Step("Restart", <<>>, "ok")
 
 LeaseNext ==
@@ -434,7 +441,7 @@ LeaseSemantics ==
 
 ----------------------------------------------------------------------------
 (* Exploration support *)
-View      == facts
+View      == <<facts, rb>>
 HistBound == Len(hist) < MaxHist
 \* one behaviour per transition of the (view-reduced) state graph
 \* one behaviour per transition of the (view-reduced) state graph; the Pre variant also carries the
